@@ -84,3 +84,32 @@ func VerifC17_FanOut() {
 		zz.Assert(has1, "nothing is released without an event")
 	}
 }
+
+// VerifC17_PerTransferSubscriberUnaffectedByOtherChannels: channel A was opened with a
+// per-transfer subscriber, channel B without one. Whatever happens to B - including B reaching a
+// terminal status, which releases B's (empty) subscriber entry - A's subscriber still receives
+// exactly the events applied to A afterwards, and none of B's.
+func VerifC17_PerTransferSubscriberUnaffectedByOtherChannels() {
+	f, _, chids := verifTwoChannels()
+	pA := &verifSubLog{}
+	f.m.channelSubscriptions.Subscribe(chids[0], pA.fn())
+	// a representative of each way B's history can go on: two endings, progress, bookkeeping
+	codeB := []datatransfer.EventCode{datatransfer.Cancel, datatransfer.Error, datatransfer.DataReceived, datatransfer.PauseInitiator}[zz.Choice("codeB", 4)]
+	_ = channels.VerifSendArbitrary(f.g, chids[1], codeB, "evB")
+	postB := f.g.VerifPeek(chids[1])
+	zz.Assert(len(pA.calls) == 0, "a per-transfer subscriber receives none of another channel's events")
+	if channels.IsChannelTerminated(postB.Status) {
+		zz.Reach("the other channel terminated")
+	}
+	applied0 := f.g.Applied
+	codeA := []datatransfer.EventCode{datatransfer.NewVoucherResult, datatransfer.DataSent, datatransfer.PauseResponder, datatransfer.Cancel}[zz.Choice("codeA", 4)]
+	_ = channels.VerifSendArbitrary(f.g, chids[0], codeA, "evA")
+	appliedA := f.g.Applied - applied0
+	zz.Assert(len(pA.calls) == appliedA, "the per-transfer subscriber still receives every event applied to its own channel")
+	for _, c := range pA.calls {
+		zz.Assert(c.State.ChannelID() == chids[0], "and only those")
+	}
+	if appliedA > 0 {
+		zz.Reach("event on the subscribed channel")
+	}
+}
